@@ -3509,7 +3509,9 @@ impl AsNode for XmlNamespace {
 
 impl AsExpandedName for XmlNamespace {
     fn as_expanded_name(&self) -> error::Result<Option<ExpandedName>> {
-        Ok(Some((self.node_name(), None, None)))
+        // the local part is the prefix, empty for the default namespace (not "xmlns")
+        let prefix = self.namespace.borrow().prefix().unwrap_or("").to_string();
+        Ok(Some((prefix, None, None)))
     }
 }
 
